@@ -209,7 +209,26 @@ func (w *cluWorld) runSeqOp(ctx context.Context, op cluOp) {
 				}
 			}
 			if len(out.okIDs) == 0 {
-				w.expectUnchanged(preSnap, postSnap, "replace")
+				// "a failed replace leaves the old workload recorded and running": an old
+				// workload that had been stopped before the call and runs after the failed
+				// replace is what the statement asks for, not a change to report
+				pre2 := map[string]string{}
+				for k, v := range preSnap {
+					pre2[k] = v
+				}
+				for _, id := range out.failIDs {
+					if wl := pre.Workloads[id]; wl != nil {
+						was := "engine/" + wl.Nodename + "/" + id + " running=false"
+						for k := range preSnap {
+							if now := strings.Replace(k, " running=false", " running=true", 1); strings.HasPrefix(k, was) && postSnap[now] != "" {
+								delete(pre2, k)
+								pre2[now] = postSnap[now]
+								w.probe("failed_replace_restarted_a_stopped_workload")
+							}
+						}
+					}
+				}
+				w.expectUnchanged(pre2, postSnap, "replace")
 			}
 		}
 	}
@@ -342,7 +361,7 @@ func (w *cluWorld) referenceFilter(s *cluState, nf *coretypes.NodeFilter) map[st
 		}
 		okL := true
 		for k, v := range nf.Labels {
-			if n.Labels[k] != v {
+			if have, ok := n.Labels[k]; !ok || have != v {
 				okL = false
 			}
 		}
@@ -700,6 +719,9 @@ func (w *cluWorld) checkCreateTruth(op cluOp, out opOutcome, pre, post *cluState
 	if out.nMsgs > len(out.okIDs) {
 		w.probe("c12_usage_checked_after_failed_instance")
 		w.checkUsage(post, "C12", "create-with-failed-instance")
+		// C11 says the same of every part of a create that reports failure ("leaves ...
+		// node usage exactly as [it was]"): what remains charged is what is recorded
+		w.checkUsage(post, "C11", "create-with-failed-part")
 	}
 	single := out.nMsgs == 1 && out.created[0].Error != nil && out.created[0].WorkloadID == ""
 	if !(single && len(out.okIDs) == 0) && out.nMsgs != total {
